@@ -97,3 +97,13 @@ Qed.
 Lemma apt_ask_header_only expect sizeof a b c d e f rest :
   apt_ask true expect sizeof (a :: b :: c :: d :: e :: f :: rest) = (Ok [a; b; c; d; e; f], rest).
 Proof. unfold apt_ask. rewrite take6. reflexivity. Qed.
+
+(* HEADER_ONLY packet types: what ask checks is exactly that six bytes arrive -- the message id in
+   them is NOT compared with the expected one (callers have to look at message_id themselves) *)
+Lemma apt_ask_header_only_spec expect sizeof s :
+  apt_ask true expect sizeof s =
+    match take 6 s with None => (Err ETimeout, s) | Some (h, r) => (Ok h, r) end.
+Proof. unfold apt_ask. destruct (take 6 s) as [[h r]|]; reflexivity. Qed.
+
+Lemma apt_ask_header_only_id_unchecked e1 e2 z1 z2 s : apt_ask true e1 z1 s = apt_ask true e2 z2 s.
+Proof. rewrite !apt_ask_header_only_spec. reflexivity. Qed.
